@@ -128,7 +128,7 @@ def conduct(job):
             lazy = job.get("lazy", [0, 40])[sched % len(job.get("lazy", [0, 40]))]
             ms = monitors(job.get("flags"))
             case = dict(wf=wf, inputs=inputs, oseed=h64(job.get("gseed", 0), seed, "o") % 100000,
-                        p_fail=job.get("p_fail", 0.2), exotic=job.get("exotic", 0.0))
+                        p_fail=job.get("p_fail", 0.2), exotic=job.get("exotic", 0.0), exotic_kinds=job.get("exotic_kinds"))
             ack = job.get("ack_chain")
             run = explore.make_run(case, ms, model=m, ack_chain=(ack if ack in ("lazy", "mixed") else bool(ack) and sched % 2 == 1))
             hook = Injector(h64(job.get("gseed", 0), seed, sched, "inj"), job.get("ctl")) if job.get("ctl") else None
@@ -213,7 +213,7 @@ def collect(out, job, run, m, ident, nontriv_fn=None, extra=None):
 
 
 def export_case(run, m):
-    return dict(wf=run.wf, inputs=run.inputs, oseed=run.outcomes.seed, p_fail=run.outcomes.p_fail, exotic=run.outcomes.exotic,
+    return dict(wf=run.wf, inputs=run.inputs, oseed=run.outcomes.seed, p_fail=run.outcomes.p_fail, exotic=run.outcomes.exotic, exotic_kinds=run.outcomes.exotic_kinds,
                 overrides=run.outcomes.overrides, script=run.script, model=(m.to_json() if m is not None else None),
                 ack_chain=run.ack_chain)
 
